@@ -279,6 +279,8 @@ func runPrio2Bubble(sc scenario) result {
 		for _, c := range seg {
 			res.vals = append(res.vals, strings.Fields(c)...)
 		}
+		snapP, snapA, snapS, snapT := dsc.VerifSnapshot()
+		appendSnapshot(&res, snapP, snapA, snapS, snapT)
 	}
 	// final observation: is the output closed, what does Err() yield
 	closedFlag, errCode := int64(0), int64(-1)
@@ -348,4 +350,31 @@ func runPrio2Bubble(sc scenario) result {
 	}
 	swallow()
 	return res
+}
+
+// the scheduling state at a quiescent point (hook, build tag verif): for every configured priority (highest first) and
+// every other priority that still has items in flight: (priority, actual, strategic)
+func appendSnapshot(res *result, priorities []uint, actual, strategic, _ map[uint]uint) {
+	listed := map[uint]bool{}
+	rows := [][3]uint{}
+	for _, p := range priorities {
+		listed[p] = true
+		rows = append(rows, [3]uint{p, actual[p], strategic[p]})
+	}
+	extra := []uint{}
+	for p, a := range actual {
+		if !listed[p] && a != 0 {
+			extra = append(extra, p)
+		}
+	}
+	sort.Slice(extra, func(i, j int) bool { return extra[i] > extra[j] })
+	for _, p := range extra {
+		rows = append(rows, [3]uint{p, actual[p], strategic[p]})
+	}
+	res.addI(int64(len(rows)))
+	for _, r := range rows {
+		res.addU(uint64(r[0]))
+		res.addU(uint64(r[1]))
+		res.addU(uint64(r[2]))
+	}
 }
